@@ -154,6 +154,17 @@ CLAIMED = {
         "grid 0..8; quick tier samples the stream x setting matrix (seeded) and runs the full matrix on a subset.",
    technique="TLA+-enumerated inputs + TLC trace validation of recorded save/load round trips against a nondeterministic P-level",
    design="4/C03"),
+ "C16": dict(
+   text="copy_to_frontend (compressors x rechunk targets), the stand-alone strax.rechunker (compressors x target sizes x serial / thread / "
+        "process x new location / replace), rechunk-on-load (source sizes x processors x workers) and per-chunk make + "
+        "merge_per_chunk_storage for every grouping of dependency chunks are executed on real storage; source before / after and "
+        "destination are read back with the real loader and TLC judges each observation against spec/StorageRT.tla (identical rows "
+        "in order, contiguous valid chunks, same range, cuts only at written boundaries or row-free gaps, metadata consistent with "
+        "the new files, source intact unless replacement was requested); exceptions are violations.",
+   note="The specification part is the P-level predicate module StorageRT.tla shared with C03 (a StoreOps state machine over operation "
+        "sequences is future growth); bit-identity decided by the harness. One stored layout of 3-4 chunks is used as the source.",
+   technique="execution of the operation matrix on real storage + TLC-evaluated P-level (StorageRT.tla) on recorded observations",
+   design="4/C16"),
 }
 NOT_BUILT = "decision procedure (TLA+ module + binding) not built yet in this session; see DESIGN.md section 4 for the plan"
 
